@@ -263,7 +263,7 @@ pub fn supervise(a: &HashMap<String, String>) -> i32 {
     let out_path = a.get("out").cloned().unwrap_or_else(|| format!("{}/evidence/.part-{}-{}.json", crate::home(), prop, flavour));
     let replay_dir = a.get("replay-dir").cloned().unwrap_or_else(|| format!("{}/replays", crate::home()));
     let known_path = a.get("known").cloned().unwrap_or_else(|| format!("{}/known_findings.json", crate::home()));
-    let hang_s: u64 = a.get("hang-s").and_then(|s| s.parse().ok()).unwrap_or(90);
+    let hang_s: u64 = a.get("hang-s").and_then(|s| s.parse().ok()).unwrap_or(if flavour == "asan" { 300 } else { 150 });
     let deadline_s: Option<u64> = a.get("deadline-s").and_then(|s| s.parse().ok());
     let me = std::env::current_exe().unwrap().to_string_lossy().to_string();
     // C13 runs the same workload through several feature-set builds of the simulator
@@ -532,6 +532,11 @@ pub fn supervise(a: &HashMap<String, String>) -> i32 {
         let rep = minimise::minimise_and_write(&bin, &mut case, &vv, &prop, label, seed, vl.idx, &path, &tmp);
         match rep {
             Ok(()) => reported.push((class, path)),
+            Err(e) if e.starts_with("ARTEFACT") => {
+                *totals.entry("artefact.coroutine-shared-thread-locals".to_string()).or_insert(0) += 1;
+                seen_classes.remove(&class);
+                eprintln!("rfsim: run {}: dropped: {}", vl.idx, e);
+            }
             Err(e) => {
                 harness_errors.push(format!("run {}: violation {} did not reproduce in a fresh process: {}", vl.idx, vv.class, e));
             }
@@ -631,7 +636,7 @@ pub fn supervise(a: &HashMap<String, String>) -> i32 {
         }
         return 2;
     }
-    if (lines.len() as u64) < runs * bins.len() as u64 && deadline_s.is_none() {
+    if (lines.len() as u64 + stalled.len() as u64) < runs * bins.len() as u64 && deadline_s.is_none() {
         eprintln!("rfsim: harness error: only {} of {} runs reported", lines.len(), runs * bins.len() as u64);
         return 2;
     }
